@@ -20,6 +20,7 @@ import (
 type runner func(tier string, seed int64, outDir string, replay string) (*core.Result, error)
 
 var drivers = map[string]runner{
+	"C07": conv.RunC07,
 	"C09": conv.RunC09,
 	"C10": conv.RunC10,
 	"C11": c11.Run,
